@@ -148,6 +148,13 @@ theorem group_completes_at_first_sat_vm (g : G) (hne : ∀ c ∈ toDnf (normaliz
   rw [vm_refines_clause_machine _ hne]
   exact group_completes_at_first_sat g es k
 
+/-- The same with a syntactic hypothesis: no `and` group of `g` is empty (every group the grammar can spell). -/
+theorem group_completes_at_first_sat_vm_spelled (g : G) (hg : g.noEmptyAnd = true)
+    (es choices : List Nat) (k : Nat) :
+    (vmMarkers (toDnf (normalize g)) es choices)[k]? = some true ↔
+      (k < es.length ∧ eval (seen es k) g = true ∧ ∀ j, j < k → eval (seen es j) g = false) :=
+  group_completes_at_first_sat_vm g (toDnf_normalize_nonempty g hg) es choices k
+
 /-- Tie-breaks never change when (or whether) the group completes. -/
 theorem vm_tie_break_independent (d : Clauses) (hne : ∀ c ∈ d, c ≠ []) (es c1 c2 : List Nat) :
     vmMarkers d es c1 = vmMarkers d es c2 := by
@@ -230,6 +237,7 @@ example : readBack [.catchPF (some 1), .fork 0 [3, 4], .label 3, .matchEv 0, .go
     .label 1, .merge 0, .catchPF none, .abort, .label 2, .wait 2, .merge 0, .catchPF none] = some [[0, 1]] := by decide
 -- non-vacuity of `hne` in the head-level theorems; tests of the machine with two clauses completing at the same event
 example : ∀ c ∈ toDnf (normalize ex1), c ≠ [] := by decide
+example : ex1.noEmptyAnd = true := by decide
 example : vmMarkers [[0, 1], [0]] [1, 0] [0] = [false, true] := by decide
 example : vmMarkers [[0, 1], [0]] [1, 0] [1] = [false, true] := by decide
 -- the hypothesis `hne` excludes exactly groups like `and []` (not expressible in Colang source)
